@@ -760,3 +760,218 @@ def mon_c05(sc, res):
 
 def mon_c05_all(sc, res):
     return mon_c05(sc, res) + mon_c01(sc, res) + mon_c03(sc, res)
+
+
+# --------------------------------------------------------------------------- C08 (access control)
+
+def _names(v):
+    return set(x for x in v if isinstance(x, bytes)) if isinstance(v, list) else set()
+
+
+def mon_c08(sc, res):
+    """With a credential file loaded: what a peer is shown / may set / may call follows the groups of the user it
+    authenticated as (from the scenario's credential table), nothing else.  Passwords never appear in output or log."""
+    fails = []
+    itr = res["itr"]
+    log = res["log"]
+    auth = bool(sc.users)
+    cfgv = D.C.config_values(sc.variant)
+    local_only = cfgv.get("CONFIG_ALLOW_ADD_ONLY_FROM_LOCALHOST", "false") == "true"
+    origin = {}
+    for st in sc.steps:
+        if st[0] == "connect":
+            origin[st[1]] = st[3]
+        elif st[0] == "connect_http":
+            origin[st[1]] = st[2]
+    users = {}
+    for u in sc.users:
+        a = canon_ast(u["auth"]) if u.get("auth") is not None else None
+        users[D.sbytes(u["name"]).lower()] = a
+    who = {}          # conn -> auth object of the user it authenticated as
+    decl = {}         # path -> dict(fetch=set, set=set, call=set, kind)
+    dead = set()
+    secrets = [D.sbytes(u["password"]) for u in sc.users if len(D.sbytes(u["password"])) >= 5] + [b"new1", b"new2"] if auth else []
+    for si, st in enumerate(sc.steps):
+        sends = step_sends(res, si)
+        reqs = [(c, v) for c, v in step_requests(st, itr.replies, si) if c not in dead and v is not None]
+        # learn from successful authenticate / add / remove in this step (ids must identify the response)
+        for c, top in reqs:
+            rs, _ = flatten_requests(top)
+            resp = [v for d, ok, v in sends if d == c and is_response(v)]
+            for r in rs:
+                m = cget(r, b"method")
+                rid = cget(r, b"id")
+                params = cget(r, b"params")
+                mine = [v for v in resp if cget(v, b"id") == rid] if is_id(rid) else []
+                okresp = len(mine) == 1 and has_member(mine[0], b"result")
+                if m == b"authenticate" and okresp and is_obj(params) and isinstance(cget(params, b"user"), bytes):
+                    who[c] = users.get(cget(params, b"user").lower())
+                elif m == b"authenticate" and len(mine) != 1:
+                    who[c] = "unknown"      # outcome not observable (no usable request id): this peer is not judged any more
+                elif m == b"add" and is_obj(params) and isinstance(cget(params, b"path"), bytes):
+                    if okresp:
+                        a = cget(params, b"access")
+                        decl[cget(params, b"path")] = {"fetch": _names(cget(a, b"fetchGroups")) if a is not None else set(),
+                                                        "set": _names(cget(a, b"setGroups")) if a is not None else set(),
+                                                        "call": _names(cget(a, b"callGroups")) if a is not None else set()}
+                        if local_only and origin.get(c) not in D.LOCAL_ORIGINS and origin.get(c) != "unix":
+                            fails.append("step %d: add from non-local origin %s accepted although only local adds are allowed" % (si, origin.get(c)))
+                    elif len(mine) != 1 and not is_id(rid):
+                        decl.pop(cget(params, b"path"), None)    # outcome unknown: stop judging this path
+                        decl[cget(params, b"path")] = None
+        if auth:
+            for d, ok, v in sends:
+                if isinstance(v, tuple) and v and v[0] == "unparsable":
+                    continue
+                a = who.get(d)
+                if a == "unknown":
+                    continue
+                mine = {"fetch": _names(cget(a, b"fetchGroups")) if a is not None else set(),
+                        "set": _names(cget(a, b"setGroups")) if a is not None else set(),
+                        "call": _names(cget(a, b"callGroups")) if a is not None else set()}
+                params = cget(v, b"params")
+                if cget(v, b"method") is not None and is_obj(params) and cget(params, b"event") is not None and cget(v, b"id") is None:
+                    path = cget(params, b"path")
+                    dd = decl.get(path)
+                    if dd is not None and not (dd["fetch"] & mine["fetch"]):
+                        fails.append("step %d: c%d (user groups %s) was notified about %s whose fetch groups are %s" % (
+                            si, d, sorted(mine["fetch"]), show(path), sorted(dd["fetch"])))
+                elif is_response(v) and isinstance(cget(v, b"result"), list):
+                    for ent in cget(v, b"result"):
+                        path = cget(ent, b"path") if is_obj(ent) else None
+                        dd = decl.get(path)
+                        if dd is not None and not (dd["fetch"] & mine["fetch"]):
+                            fails.append("step %d: get result for c%d lists %s without a shared fetch group" % (si, d, show(path)))
+                elif cget(v, b"method") is not None and isinstance(cget(v, b"id"), bytes) and isinstance(cget(v, b"method"), bytes):
+                    # routed request delivered to the owner d: find the caller among this step's set/call requests
+                    path = cget(v, b"method")
+                    dd = decl.get(path)
+                    if dd is None:
+                        continue
+                    callers = []
+                    for c, top in reqs:
+                        rs, _ = flatten_requests(top)
+                        for r in rs:
+                            if cget(r, b"method") in (b"set", b"call") and is_obj(cget(r, b"params")) and cget(cget(r, b"params"), b"path") == path:
+                                callers.append((c, cget(r, b"method")))
+                    if len(set(callers)) == 1:
+                        c, m = callers[0]
+                        ca = who.get(c)
+                        if ca == "unknown":
+                            continue
+                        key = b"setGroups" if m == b"set" else b"callGroups"
+                        have = _names(cget(ca, key)) if ca is not None else set()
+                        need = dd["set"] if m == b"set" else dd["call"]
+                        if not (have & need):
+                            fails.append("step %d: %s on %s by c%d (groups %s) was routed although the element requires %s" % (
+                                si, m.decode(), show(path), c, sorted(have), sorted(need)))
+        for c in itr.closed[si]:
+            dead.add(c)
+            who.pop(c, None)
+    # passwords never appear in any output or log line
+    if secrets:
+        blob = b"\n".join(c.out for c in log.conns.values())
+        logs = "\n".join(t for _, t in log.logs).encode("utf-8", "replace")
+        for s in set(secrets):
+            if s in blob:
+                fails.append("password %r appears in bytes written to a connection" % s)
+            if s in logs:
+                fails.append("password %r appears in a log line" % s)
+    return fails[:6]
+
+
+# --------------------------------------------------------------------------- C11 (fault isolation, differential)
+
+def _streams(sc, res):
+    """conn -> list of canonical JSON messages it was sent over the whole run (attempted sends); the address token inside
+    routed request ids is replaced by the requester's connection number (addresses differ from run to run)"""
+    import re
+    addr = {}
+    for si in range(len(sc.steps)):
+        for c, a in res["itr"].peers[si]:
+            addr[a[:-1].encode()] = c      # the id is cut by one character
+    out = {}
+    for si in range(len(sc.steps)):
+        for d, ok, v in step_sends(res, si):
+            if is_obj(v) and isinstance(cget(v, b"id"), bytes) and cget(v, b"method") is not None:
+                rid = cget(v, b"id")
+                m = re.search(rb"0x[0-9a-f]+$", rid)
+                if m and m.group(0) in addr:
+                    rid2 = rid[:m.start()] + b"<c%d>" % addr[m.group(0)]
+                    v = ("obj", [(k, rid2 if k == b"id" else x) for k, x in v[1]])
+            closing = bool(res["itr"].closed[si]) or sc.steps[si][0] in ("advance", "mixed")
+            out.setdefault(d, []).append((si if closing else -1, v))
+    # inside a step that tears a peer down (or fires several timers) the order of the answers follows table slot order,
+    # which depends on addresses: compare those as multisets
+    for d, l in out.items():
+        res_l, i = [], 0
+        while i < len(l):
+            if l[i][0] >= 0:
+                j = i
+                while j < len(l) and l[j][0] == l[i][0]:
+                    j += 1
+                res_l += sorted((v for _, v in l[i:j]), key=repr)
+                i = j
+            else:
+                res_l.append(l[i][1])
+                i += 1
+        out[d] = res_l
+    return out
+
+
+def mon_c11(sc, res):
+    """Runs the same scenario with the faults removed and compares what every healthy peer receives, and the final
+    state image; the daemon must also still be serving at the end (all script steps executed, clean exit)."""
+    from . import dcheck
+    fails = []
+    log = res["log"]
+    if log.runio_ret != 0:
+        fails.append("event loop ended with %s" % log.runio_ret)
+    faulty = set(st[1] for st in sc.steps if st[0] == "wmode")
+    if not faulty and not any(st[0] == "raw" and st[1].startswith("ACCEPTFAIL") for st in sc.steps):
+        return fails
+    # a faulty peer that is itself a requester or an owner legitimately changes the history (its requests fail, requests routed
+    # to it are answered with the delivery error): the differential claim is for faulty subscribers / bystanders
+    for si, st in enumerate(sc.steps):
+        seen_w = set(s2[1] for s2 in sc.steps[:si] if s2[0] == "wmode")
+        for c, v in step_requests(st, res["itr"].replies, si):
+            if c in seen_w:
+                return fails
+    owners = set()
+    for sn in res["log"].snaps:
+        a2c = {}
+        for si2 in range(len(sc.steps)):
+            for c, a in res["itr"].peers[si2]:
+                a2c[a] = c
+        for e in sn["elems"]:
+            owners.add(a2c.get(e["owner"]))
+    if owners & faulty:
+        return fails
+    healed = D.Scenario([st for st in sc.steps if st[0] != "wmode" and not (st[0] == "raw" and st[1].startswith("ACCEPTFAIL"))],
+                        sc.variant, sc.users, sc.groups, sc.name + "(healed)")
+    res2 = dcheck.run_one(healed)
+    a, b = _streams(sc, res), _streams(healed, res2)
+    # connection numbering is by CONNECT order, identical in both runs
+    for c in sorted(set(a) | set(b)):
+        if c in faulty:
+            continue
+        if a.get(c, []) != b.get(c, []):
+            la, lb = a.get(c, []), b.get(c, [])
+            i = 0
+            while i < min(len(la), len(lb)) and la[i] == lb[i]:
+                i += 1
+            fails.append("healthy peer c%d receives something different when %s are faulty: message %d is %s, healed run has %s" % (
+                c, sorted(faulty), i, show(la[i])[:140] if i < len(la) else "nothing", show(lb[i])[:140] if i < len(lb) else "nothing"))
+    # final element image must be the same
+    sa = res["log"].snaps[-1] if res["log"].snaps else None
+    sb = res2["log"].snaps[-1] if res2["log"].snaps else None
+    if sa and sb:
+        ea = sorted((e["path"], e["value"]) for e in sa["elems"])
+        eb = sorted((e["path"], e["value"]) for e in sb["elems"])
+        if ea != eb:
+            fails.append("element set differs from the healed run: %s vs %s" % (ea[:4], eb[:4]))
+    return fails[:6]
+
+
+def mon_c11_all(sc, res):
+    return mon_c11(sc, res) + mon_c02(sc, res) + mon_c03(sc, res)
